@@ -9,7 +9,7 @@
     buffer ([Store/Layout.v]); histories of [iop] are lowered to histories of [hop] by replacing
     every array by its logical content [nd_rows a], so theorems (1)-(6) apply to them as they are. *)
 From Coq Require Import List NArith ZArith Arith Bool.
-From Elfi Require Import Store.Layout Proofs.C05_Layout Store.Npy Proofs.C06_Npy.
+From Elfi Require Import Store.Layout Proofs.C05_Layout Store.Npy Proofs.C06_Npy Proofs.C06_ModelOk.
 Import ListNotations.
 
 (** (1) Refinement: after any history, whatever the buffering, [len(store)] and every [store[i]]
@@ -440,3 +440,97 @@ Example C06_ok_reports_logical_nonvacuous :
      :: [{| o_err := false; o_len := 2; o_batches := Some [nd_rows ex_F; nd_rows ex_F]; o_load := Some (Some (nd_rows ex_F ++ nd_rows ex_F)) |}]) = true
   /\ 1 <= length [nd_rows ex_C] /\ nd_shape ex_neg = 2 :: [3].
 Proof. vm_compute. repeat split; repeat constructor. Qed.
+
+(** ---- (8) model_ok: the model's own answer passes the decidable predicate [ok] ----
+    Proofs in Proofs/C06_ModelOk.v.
+
+    (8a) The crash clause, for every well-formed history, EVERY buffer oracle [o] and EVERY kill point
+    [k] (numbered over all low-level operations, memmap writes included; [k] beyond the end = the end):
+    with the model's own low-level trace, the model's own error flags, the contents list built from
+    them, and the file the model leaves when killed on entering operation [k], [ok_crash1] holds --
+    i.e. (by [C06_ok_sound]) the surviving file loads to a content the store had at or after the last
+    completed successful flush-like operation of the initialised store.  The proof locates the
+    operation in progress and the flush from [last_exec]/[last_flush], and then uses [C06_crash_safe]
+    (flush earlier than the operation in progress) or the flush clause of the step invariant (kill
+    right after the flush completed). *)
+Theorem C06_model_crash_ok : forall bs o ops k, 0 < bs -> wf bs ops ->
+  let rt := run_trace current bs o 1 fresh_mem empty_file ops in
+  ok_crash1 ops (map snd rt) (spec_errs [] ops (map snd rt)) (tag 0 (map fst rt))
+            (k, loads (disk_at current bs o ops k)) = true.
+Proof. exact model_crash_ok. Qed.
+Print Assumptions C06_model_crash_ok.
+
+(** (8b) Whether an operation raises, and whether the store is initialised afterwards, are functions
+    of (initialised?, specification list, operation): independent of buffering, memmap and counters.
+    Hence the observing run (oracle 0, reads interleaved) and the plain run raise at the same
+    operations, and an operation that raises leaves the specification list alone. *)
+Theorem C06_errors_determined : forall bs o m f L i op, 0 < bs -> Inv bs m f L -> wf_op bs op ->
+  r_err (hstep current bs o i m f op) = errf (m_init m) L op /\
+  m_init (r_mem (hstep current bs o i m f op)) = initf (m_init m) op.
+Proof. exact step_det. Qed.
+Print Assumptions C06_errors_determined.
+
+Theorem C06_error_keeps_spec : forall bs o m f L i op, 0 < bs -> Inv bs m f L -> wf_op bs op ->
+  r_err (hstep current bs o i m f op) = true -> spec_step L op = L.
+Proof. exact err_spec. Qed.
+Print Assumptions C06_error_keeps_spec.
+
+(** (8c) The report clause on the model's own observing run ([model_obs]: after every operation the
+    error flag, [len(store)], every batch read back, and [numpy.load] after flush-like operations of
+    an initialised store), and its error flags are those of the plain run under any oracle. *)
+Theorem C06_model_reports_ok : forall bs o ops, 0 < bs -> wf bs ops ->
+  ok_reports [] ops (model_obs bs ops) = true /\
+  map o_err (model_obs bs ops) = map snd (run_trace current bs o 1 fresh_mem empty_file ops).
+Proof.
+  intros bs o ops Hb W.
+  exact (model_obs_ok bs o Hb ops 1 fresh_mem empty_file 1 fresh_mem empty_file [] (Inv_fresh bs) (Inv_fresh bs) eq_refl W).
+Qed.
+Print Assumptions C06_model_reports_ok.
+
+(** (8d) model_ok: for every history of arrays in arbitrary layouts whose lowering is well-formed,
+    every recorded buffer behaviour [ol] and every list of kill points [ks], the case made of the
+    model's own trace, the model's own observations and the model's own surviving file at each kill
+    point passes [ok].  So [ok] is satisfiable on every well-formed input, and an implementation whose
+    trace, reports and surviving files agree with the model has the property. *)
+Theorem C06_model_ok : forall bs ol ins tro ks, 0 < bs -> wf bs (map lower ins) ->
+  ok (model_case bs ol ins (model_obs bs (map lower ins)) tro ks) = true.
+Proof. exact model_ok. Qed.
+Print Assumptions C06_model_ok.
+
+Theorem C06_model_ok_layouts : forall bs ol ins tro ks, 0 < bs -> iwf bs ins ->
+  ok (model_case bs ol ins (model_obs bs (map lower ins)) tro ks) = true.
+Proof. intros bs ol ins tro ks Hb W. apply model_ok; [exact Hb | now apply iwf_wf]. Qed.
+Print Assumptions C06_model_ok_layouts.
+
+(** Non-vacuity: a history with arrays in three layouts, a flush, a read, an overwrite, a failing
+    write (index beyond the end), a delete-last, a pickle round trip and a final append, under an
+    oracle that commits one pending write at some seeks; all 45 kill points.  The hypotheses hold,
+    [ok] evaluates to [true], the crash clause is exercised (kill point 16 is inside the overwrite
+    that follows the flush: operation in progress 4, last completed flush 1), and the model's
+    surviving file there is the two-batch content. *)
+Definition mo_ins : list iop :=
+  [IArr 0 true ex_F; IOp Flush; IArr 1 true ex_step; IOp (Read 0); IArr 0 true ex_neg; IArr 5 true ex_C;
+   IOp (Del 1); IOp Pickle; IArr 1 true ex_C; IOp Query].
+Definition mo_oracle : list nat := [0; 1; 0; 0; 1; 0; 0; 0; 1; 0; 0; 1].
+
+Example C06_model_ok_example :
+  iwf 2 mo_ins /\
+  ok (model_case 2 mo_oracle mo_ins (model_obs 2 (map lower mo_ins)) [] (seq 0 45)) = true /\
+  map o_err (model_obs 2 (map lower mo_ins)) = [false; false; false; false; false; true; false; false; false; false] /\
+  (let rt := run_trace current 2 (oracle_of mo_oracle) 1 fresh_mem empty_file (map lower mo_ins) in
+   length (concat (map fst rt)) = 27 /\
+   last_exec (16 - 1) (tag 0 (map fst rt)) None = Some (4, false) /\
+   last_flush (map lower mo_ins) (map snd rt) 4 false 0 false None = Some 1) /\
+  loads (disk_at current 2 (oracle_of mo_oracle) (map lower mo_ins) 16) = Some [[1; 3; 5]; [2; 4; 6]; [7; 8; 9]; [10; 11; 12]]%N.
+Proof.
+  split; [repeat constructor; try (eexists; reflexivity)|].
+  vm_compute. repeat split.
+Qed.
+
+(** Why [model_obs] records [numpy.load] only for an initialised store (as the harness does): a flush
+    of a store nothing was written to succeeds and leaves an empty file, which does not load; an
+    observation that recorded that failed load would be rejected by the report clause. *)
+Example C06_flush_before_first_write :
+  ok_reports [] [Flush] (model_obs 1 [Flush]) = true /\
+  ok_reports [] [Flush] [{| o_err := false; o_len := 0; o_batches := Some []; o_load := Some None |}] = false.
+Proof. vm_compute. split; reflexivity. Qed.
